@@ -266,6 +266,7 @@ type ledgers struct {
 	entries   map[entKey]*entRec
 	committed map[uint64]uint64 // index -> term
 	commitBy  map[uint64]string
+	commitHash map[uint64]uint64 // index -> payload hash of the entry as held by the node that committed it
 	upto      uint64   // committed prefix known contiguously
 	G         []uint64 // committed update commands in index order (up to upto)
 	Gidx      []uint64
@@ -295,6 +296,7 @@ func (l *ledgers) init(run *simRun) {
 	l.entries = map[entKey]*entRec{}
 	l.committed = map[uint64]uint64{}
 	l.commitBy = map[uint64]string{}
+	l.commitHash = map[uint64]uint64{}
 	l.cmdAt = map[uint64][]entKey{}
 	l.everVoter = map[uint64]bool{}
 	l.okUpdates = map[uint64]*opRec{}
@@ -368,6 +370,22 @@ func (l *ledgers) onStarted(ni *nodeInc) {
 		}
 	}
 	l.scanLog(ni, true)
+	if ni.n > 0 && !l.run.stop {
+		l.checkMembershipView(ni, "after restart")
+	}
+}
+
+// checkMembershipView (C12): the node's view of the membership is the newest
+// configuration entry of its own log, else the label of its latest snapshot.
+func (l *ledgers) checkMembershipView(ni *nodeInc, when string) {
+	r := ni.r
+	exp := configFromLog(r)
+	if exp == nil {
+		return
+	}
+	if !sameMembership(exp, &r.configs.Latest) {
+		l.run.violate("C12", "membership_view_wrong", "membership_view:"+strings.ReplaceAll(when, " ", "_"), "%v %s: its view of the membership is %v, but the newest configuration its log (%d,%d] and snapshot %d hold is %v", ni, when, r.configs.Latest, r.log.PrevIndex(), r.lastLogIndex, r.snaps.index, *exp)
+	}
 }
 
 func (l *ledgers) onServeReturned(ni *nodeInc) { l.onServeReturned2(ni) }
@@ -375,6 +393,14 @@ func (l *ledgers) onServeReturned(ni *nodeInc) { l.onServeReturned2(ni) }
 // onStartFailed: C10 — a node restarted on the directory a crash left behind must start.
 func (l *ledgers) onStartFailed(ni *nodeInc, what string, err error) {
 	if ni.dead {
+		return
+	}
+	if ni.diskErrs > 0 {
+		// the start itself hit an injected storage error: try again later
+		l.run.reach("start_failed_on_disk_error")
+		if ni.node.inc == ni {
+			ni.node.inc = nil
+		}
 		return
 	}
 	l.run.violate("C10", "restart_failed", "restart_failed:"+what+":"+errClass(err), "%v could not start on its storage directory (incarnation %d): %s: %v\n%s", ni, ni.n, what, err, listDir(ni.dir))
@@ -679,6 +705,12 @@ func (l *ledgers) observe(ni *nodeInc) {
 		}
 		for i := o.commit + 1; i <= c; i++ {
 			if t, ok := o.terms[i]; ok {
+				if _, known := l.commitHash[i]; !known {
+					e := &entry{}
+					if err := r.storage.getEntry(i, e); err == nil {
+						l.commitHash[i] = hashBytes(e.data) ^ uint64(e.typ)<<56
+					}
+				}
 				l.markCommitted(i, t, ni.String())
 				if run.stop {
 					return
@@ -1171,6 +1203,9 @@ func (run *simRun) probe(name string, args []interface{}) {
 	case "Raft.onInstallSnapRequest:exit":
 		if res, _ := args[3].(rpcResult); res == success {
 			run.reach("install_snapshot")
+			if ni := run.incOf(args[0].(*Raft)); ni != nil && !ni.dead && ni.obs.started {
+				run.led.checkMembershipView(ni, "after a snapshot was installed")
+			}
 		}
 	case "Raft.setCommitIndex:enter":
 		// the instant a leader decides that index is committed: its own copy has been
@@ -1362,13 +1397,31 @@ func (run *simRun) afterStep() {
 		if ni.r.state == Leader {
 			run.led.sawLeader(ni, ni.r.term)
 		}
-		if ni.consistent() {
-			run.led.observe(ni)
+		if ni.consistent() && !ni.closing() && !ni.obsBroken {
+			run.safeObserve(ni)
 			if run.stop {
 				return
 			}
 		}
 	}
+}
+
+// safeObserve: a node into which a storage error was injected can be left with a
+// half-reset log on its way to shutting down; reading it may fault. Such a node is no
+// longer observed. Without an injected error a fault here is the harness's problem.
+func (run *simRun) safeObserve(ni *nodeInc) {
+	defer func() {
+		if v := recover(); v != nil {
+			ni.obsBroken = true
+			if ni.diskErrs == 0 {
+				run.infra = fmt.Sprintf("oracle faulted while observing %v: %v", ni, v)
+				run.stop = true
+			} else {
+				run.reach("unobservable_after_disk_error")
+			}
+		}
+	}()
+	run.led.observe(ni)
 }
 
 // ---- settle (C17) --------------------------------------------------------------------------------
@@ -1389,6 +1442,12 @@ func (run *simRun) settleCheck() {
 	if run.sim.Now-run.healedAt > run.settleBudget() {
 		if why == "no_leader" && run.electionBlockedByUncommittedConfig() {
 			why = "no_leader:uncommitted_config_disables_up_to_date_nodes"
+		}
+		if run.prof.DiskErr > 0 {
+			// liveness is not demanded of runs with injected storage errors: end the run
+			run.reach("no_convergence_under_disk_errors")
+			run.beginShutdown()
+			return
 		}
 		run.violate("C17", "no_convergence", "settle:"+why, "cluster did not converge within %v of simulated time after the last fault: %s\n%s%s", time.Duration(run.settleBudget()), why, run.describeCluster(), run.sim.Describe())
 		return
